@@ -56,6 +56,12 @@ def _arms(loop: ast.For):
 
 def check(ck):
     repo = ck.repo
+    collection_rules(ck, repo)
+    _rest(ck, repo)
+
+
+def collection_rules(ck, repo):
+    """R1-R5: field collection (shared with C03 - exactly the selected keys - and C09 - document order)."""
     collect = repo.func(COLLECT, "collect_fields")
     fv = FuncView(collect)
     loop = _selection_loop(fv)
@@ -279,6 +285,9 @@ def check(ck):
         ck.ob("collect_subfields: returns the accumulator", len(rets) == 1 and acc is not None and unparse(rets[0].value) == unparse(acc),
               cs, rets[0] if rets else cs.node, construct="subfields:return")
 
+
+
+def _rest(ck, repo):
     # ---------------------------------------------------------------- R6
     with ck.rule("R6"):
         _execute_fields_alignment(ck, repo)
@@ -298,6 +307,9 @@ def check(ck):
     # ---------------------------------------------------------------- R10
     with ck.rule("R10"):
         _type_resolver(ck, repo)
+        # type conditions and the runtime-type check are answered from the possible-type sets
+        from .c03 import possible_type_sets
+        possible_type_sets(ck, repo)
 
     # ---------------------------------------------------------------- R11
     # "spec-coerced arguments": the argument decision table and the per-declared-argument structure
